@@ -12,8 +12,8 @@ from cpverif.props import c02
 LEVEL = "exploration"
 RULE = (
     "complete enumeration of 8 built-in types x {empty allowed, not allowed} x length declarations {none, exact, "
-    "lower-only, upper-only, multi-item; fixed: two exact widths} x allowed-character ranges {none, 32...126, two-item "
-    "digits+lower-case, open 33...} x formats {delimited, fixed, excel, ods} x cells {empty, 1-3 blanks, shortest and "
+    "lower-only, upper-only, multi-item, multi-item open on both sides; fixed: two exact widths} x allowed-character ranges {none, 32...126, two-item "
+    "digits+lower-case, open 33...; set before or after the field is declared} x formats {delimited, fixed, excel, ods} x cells {empty, 1-3 blanks, shortest and "
     "longest allowed stem, one shorter / one longer, a stem with one disallowed character at every position, fixed: "
     "blank-padded stems, cells of / padded with tabs, no-break spaces, ideographic spaces and unit separators}; type rules are chosen so that the undisturbed stem satisfies them. A case is (declaration, "
     "format, allowed range, cell), distinct by digest; every case sits on a guard and counts as non-trivial. A second "
@@ -24,7 +24,7 @@ ASSUMPTIONS = [
     "guard model of cpverif/models/fieldmodel.py; only the blank (U+0020) is padding of fixed cells",
 ]
 
-LENGTHS = ["", "3", "2...", "...4", "1...2, 4...5"]
+LENGTHS = ["", "3", "2...", "...4", "1...2, 4...5", "...2, 4..."]
 FIXED_WIDTHS = ["3", "5"]
 ALLOWED = [None, "32...126", "48...57, 97...122", "33..."]
 DISALLOWED_CHAR = {None: None, "32...126": "é", "48...57, 97...122": "A", "33...": " "}
@@ -138,13 +138,25 @@ def run(ctx):
             continue
         if type_name == "Choice" and rule == "":
             continue
+        # every second declaration with an allowed range gets the range only after the field exists: the guard is
+        # about the data format's range at the time a cell is judged (a D row may follow the F rows)
+        late = allowed is not None and (index // len(ALLOWED)) % 2 == 1
         key = (kind, allowed)
-        if key not in fmt_cache:
-            fmt_cache[key] = c02.make_format(kind, ".", "", allowed)
-        fmt = fmt_cache[key]
+        if late:
+            fmt = c02.make_format(kind, ".", "", None, complete=False)
+        else:
+            if key not in fmt_cache:
+                fmt_cache[key] = c02.make_format(kind, ".", "", allowed)
+            fmt = fmt_cache[key]
         field = c02.construct(ctx, "C03", type_name, empty, length_text, rule, fmt)
         if field is None:
             continue
+        if late:
+            from cutplace import data
+
+            fmt.set_property(data.KEY_ALLOWED_CHARACTERS, allowed)
+            fmt.validate()
+            ctx.count("declarations.allowed-range-set-after-the-field")
         ctx.count("declarations")
         for cell in cells:
             try:
@@ -154,20 +166,23 @@ def run(ctx):
             except Exception as error:
                 ctx.count("field.validated.internal-error.%s" % type(error).__name__)
         if kind == "delimited" and index % e2e_every == 0:
-            end_to_end(ctx, mon, type_name, empty, length_text, rule, allowed, cells)
+            end_to_end(ctx, mon, type_name, empty, length_text, rule, allowed, cells, late_row=(index // e2e_every) % 2 == 1)
     ctx.exhaustive = True
     ctx.note("the product types x flags x length declarations x allowed ranges x formats x guard cells is enumerated completely in both tiers; thorough drives every delimited declaration end-to-end as well")
 
 
-def end_to_end(ctx, mon, type_name, empty, length_text, rule, allowed, cells):
+def end_to_end(ctx, mon, type_name, empty, length_text, rule, allowed, cells, late_row=False):
     import cutplace
     from cutplace import errors, interface
 
     rows = [["D", "Format", "Delimited"], ["D", "Encoding", "utf-8"]]
-    if allowed:
+    if allowed and not late_row:
         rows.append(["D", "Allowed characters", allowed])
     rows.append(["F", "head", "", "X", "", "Text", ""])
     rows.append(["F", FIELD, "", "X" if empty else "", length_text, type_name, rule])
+    if allowed and late_row:
+        rows.append(["D", "Allowed characters", allowed])
+        ctx.count("e2e.allowed-range-declared-below-the-fields")
     cid = interface.Cid()
     try:
         cid.read("<c03>", rows)
